@@ -27,6 +27,28 @@ func signature(kind string, c any, msg string) string {
 			return SigAddUnifiedOppY
 		}
 	}
+	if ac, ok := c.(AdvCase); ok {
+		cv := curves[ac.Curve]
+		sv := new(big.Int).Mod(unhx(ac.S), cv.R)
+		pm1 := sv.Cmp(big.NewInt(1)) == 0 || sv.Cmp(new(big.Int).Sub(cv.R, big.NewInt(1))) == 0
+		switch {
+		case strings.Contains(msg, "is satisfiable") && cv.Lambda != nil && (ac.Strategy == "zero-subscalars" || (ac.Strategy == "small-subscalars" && ac.K&0xf == 0)):
+			return SigZeroSubscalars
+		case strings.Contains(msg, "rejects the native result") && cv.Lambda == nil && pm1:
+			return SigFakeGLVScalarOne
+		case strings.Contains(msg, "not satisfiable with the native result") && cv.Lambda != nil && pm1 && !ac.Complete:
+			return SigScalarOne
+		}
+	}
+	if sc, ok := c.(SWCase); ok && strings.Contains(msg, "in-domain input not satisfiable") && curves[sc.Curve].Lambda == nil {
+		cv := curves[sc.Curve]
+		for _, x := range sc.Scalars {
+			m := new(big.Int).Mod(x.value(), cv.R)
+			if m.Cmp(big.NewInt(1)) == 0 || m.Cmp(new(big.Int).Sub(cv.R, big.NewInt(1))) == 0 {
+				return SigFakeGLVScalarOne
+			}
+		}
+	}
 	for _, k := range knownSignatures {
 		if strings.Contains(msg, k.needle) {
 			return k.sig
@@ -87,6 +109,12 @@ func oppositeYDistinctX(c *SWCase) bool {
 }
 
 const (
+	// sw_emulated scalarMulGLVAndFakeGLV (secp256k1, BN254, BLS12-381, BW6-761): the hinted Eisenstein
+	// sub-scalars u1,u2,v1,v2 may all be 0; the relation [v]Q + [u]P = 0 then holds for every Q:
+	// ScalarMul / ScalarMulBase accept any claimed result
+	SigZeroSubscalars = "glvfakeglv-zero-subscalars-any-output"
+	// sw_emulated scalarMulFakeGLV (P-256, P-384): s = +-1 unsatisfiable with and without complete arithmetic
+	SigFakeGLVScalarOne = "fakeglv-scalarmul-scalar-pm1"
 	// AddUnified (emulated and native): for y1 = -y2 with x1 != x2 (e.g. Q = -phi(P) on j=0 curves) the
 	// gadget returns (0,0) instead of P+Q
 	SigAddUnifiedOppY = "addunified-opposite-y-distinct-x"
@@ -145,6 +173,14 @@ func knownOrViolate(t *testing.T, rec *ev.Recorder, kind string, c any, msg stri
 	return false
 }
 
-func registerMoreReplays(reg func(kind string, f func(raw json.RawMessage) string)) {}
+func registerMoreReplays(reg func(kind string, f func(raw json.RawMessage) string)) {
+	reg("adv", func(raw json.RawMessage) string {
+		var c AdvCase
+		if json.Unmarshal(raw, &c) != nil {
+			return ""
+		}
+		return runAdv(c).Violation
+	})
+}
 
 func TestChildNoop(t *testing.T) {}
